@@ -193,8 +193,8 @@ class TenantWorld(object):
                 # swarm: each fault kind is on in about two thirds of fault-injecting runs
                 rates[f] = p if rng.random() < 0.67 else 0.0
         # swarm themes: some runs concentrate on one corner of the tenant space
-        theme = rng.choices(['mixed', 'matrix', 'lists', 'inferring', 'comparers'], [0.55, 0.15, 0.12, 0.1, 0.08])[0] \
-            if prof.get('themes', True) else 'mixed'
+        theme = rng.choices(['mixed', 'matrix', 'lists', 'inferring', 'comparers', 'marathon'],
+                            [0.53, 0.15, 0.12, 0.1, 0.08, 0.02])[0] if prof.get('themes', True) else 'mixed'
         if theme == 'comparers' and rates.get('cmp', 0) > 0 and 'numerical' in kinds:
             # class-wide default comparers changed and reset while math graders are built and infer
             enabled, weights = ['formula', 'numerical', 'matrix'], [2, 2, 2]
@@ -206,6 +206,10 @@ class TenantWorld(object):
         elif theme == 'lists' and 'list' in kinds:
             enabled, weights = ['list', 'singlelist', 'simitem'], [2, 2, 1]
         n_ten = rng.randint(*prof['n_tenants'])
+        if theme == 'marathon':
+            n_ten = rng.randint(1, 2)
+            for k in rates:
+                rates[k] = rates[k] * 0.3
         shared = {}
         n_shared = rng.choice([0, 1, 1, 2]) if prof.get('shared', True) else 0
         for k in range(n_shared):
@@ -259,6 +263,10 @@ class TenantWorld(object):
                                 'targets': sh['targets'], 'depth': 0, 'debug': False}
                 order.append(sid)
         n_ev = rng.randint(*prof['len'][tier])
+        if theme == 'marathon':
+            # delayed effects (counters, growing caches, the N-th call): one or two tenants, a long
+            # history of mostly ordinary calls
+            n_ev = rng.randint(120, 320)
         events = []
         upfront = [g for g in order if rng.random() < 0.7]
         for g in upfront:
